@@ -18,6 +18,11 @@ K5b == {<<34>>, <<17, 34>>, <<51, 34>>, <<17, 50>>, <<19, 34>>}
 K6 == {<<>>, <<34>>, <<17, 34>>, <<51, 34>>, <<17, 50>>, <<19, 34>>}
 K7 == {<<>>, <<34>>, <<17, 34>>, <<51, 34>>, <<17, 50>>, <<19, 34>>, <<17, 85>>}
 
+\* the key universe, for the harness (final audit reads every key)
+ASSUME PrintT("@@KEYS " \o ToJson(Keys))
+\* keys that take every value (the others only the smallest): bounds the overwrite dimension
+RichAll == Keys
+Rich1 == {<<17, 34>>}
 GenNext  == Len(hist) < Depth /\ Next
 GenSpec  == Init /\ [][GenNext]_vars
 EmitEdge == PrintT("@@B " \o ToJson(hist'))
